@@ -295,11 +295,11 @@ class CodeGenerator(nunavut._generators.AbstractGenerator):
                 if match_obj is None:
                     line_buffer.write(part[search_pos:])
                     break
-
-                # We have a newline
-                line_buffer.write(part[search_pos : match_obj.start()])
+                line_buffer.write(part[search_pos : match_obj.start()])  # We have a newline
                 newline_chars = part[match_obj.start() : match_obj.end()]
                 line = line_buffer.getvalue()  # type: str
+                if newline_chars == "\n" and line.endswith("\r"):  # a "\r\n" split between two parts: re-join it
+                    line, newline_chars = line[:-1], "\r\n"
                 line_buffer = io.StringIO()
                 cls._filter_and_write_line((line, newline_chars), output_file, line_pps)
                 search_pos = match_obj.end()
